@@ -89,8 +89,11 @@ def r13_b(ctx):
     calls = _token_calls(fd.node)
     if not calls:
         raise AnalysisError('Token.join builds no Token')
+    from .model import resolve_locals as _rl
     for c in calls:
         t, p = _arg(c, 0, 'text'), _arg(c, 1, 'position')
+        t = _rl(fd.node, t) if t is not None else None
+        p = _rl(fd.node, p) if p is not None else None
         ok_pos = p is not None and norm(p) == '%s[0].position' % seq
         ok_txt = t is not None and isinstance(t, ast.Call) and isinstance(t.func, ast.Attribute) and t.func.attr == 'join' \
             and any(isinstance(g, ast.comprehension) and norm(g.iter) == seq for x in ast.walk(t) for g in getattr(x, 'generators', []))
@@ -146,6 +149,9 @@ def r13_b(ctx):
                 if isinstance(n, ast.AugAssign) and isinstance(n.target, ast.Name) and n.target.id == startvar[0] \
                         and isinstance(n.op, ast.Add):
                     defs.add('%s + %s' % (startvar[0], norm(n.value)))
+            if not defs:
+                raise AnalysisError('Token.__getitem__: the start offset %s is not computed by assignments in the method '
+                                    '(helper or other shape): outside the decidable subset of R13.b' % startvar[0])
             need = {ip, '%s.start' % ip, '0'}
             neg = any(d.replace(' ', '') in ('len(self.text)+%s' % startvar[0], '%s+len(self.text)' % startvar[0]) for d in defs)
             ok = need <= defs and neg
@@ -177,6 +183,10 @@ def r13_b(ctx):
             ok = any(isinstance(s, ast.Assign) and norm(s.targets[0]) == 'self.position' and norm(s.value) == 'text.position'
                      for s in n.body) and any(isinstance(s, ast.Assign) and norm(s.targets[0]) == 'self.position'
                                               and norm(s.value) == 'position' for s in n.orelse)
+    if not ok and not any(isinstance(n, ast.If) and 'isinstance(text, Token)' in norm(n.test) and any(
+            isinstance(s_, ast.Assign) and norm(s_.targets[0]) == 'self.position' for s_ in n.body + n.orelse) for n in ast.walk(fd.node)):
+        raise AnalysisError('Token.__new__: the position is not assigned in the two arms of `isinstance(text, Token)`: shape not '
+                            'recognised by R13.b')
     rr.ob(ok, {'method': '__new__', 'copies_position_of_token_argument': ok})
     if not ok:
         fail(fd, fd.node.name, 'Token(...) must take the position of a Token argument and the given position otherwise')
@@ -216,13 +226,22 @@ def r13_d(ctx):
     if not calls:
         raise AnalysisError('search_regex builds no Token')
     loops = [n for n in ast.walk(fd.node) if isinstance(n, ast.For)]
-    leaf = match = None
+    # generator expressions over finditer are loops too
+    from .model import loop_form
+    for d in ast.walk(fd.node):
+        if isinstance(d, ast.FunctionDef):
+            lf = loop_form(d)
+            if lf is not d:
+                loops += [n for n in ast.walk(lf) if isinstance(n, ast.For)]
+    leaf = match = hay = None
     for lp in loops:
         if isinstance(lp.iter, ast.Attribute) and lp.iter.attr == 'text' and isinstance(lp.target, ast.Name):
             leaf = lp.target.id
         if isinstance(lp.iter, ast.Call) and norm(lp.iter.func).endswith('finditer') and isinstance(lp.target, ast.Name):
             match = lp.target.id
             hay = lp.iter.args[1] if len(lp.iter.args) > 1 else None
+    if leaf is None or match is None:
+        raise AnalysisError('search_regex: the loops over the text leaves / over the matches are not recognised')
     for c in calls:
         t, p = _arg(c, 0, 'text'), _arg(c, 1, 'position')
         pa = se.ev(p) if p is not None else None
